@@ -15,10 +15,12 @@
 #include <deque>
 #include <memory>
 #include <climits>
+#include <cstring>
 #include <igris/datastruct/ring.h>
 #include <igris/datastruct/ring_counter.h>
 #include <igris/container/ring.h>
 #include <igris/container/cyclic_buffer.h>
+#include <igris/datastruct/bytering.h>
 
 using namespace hv;
 typedef std::vector<uint8_t> bytes;
@@ -290,6 +292,20 @@ static void run_cring(const std::vector<std::string> &w, out &o)
         for (size_t i = 0; i < got.size() && i < c.q.size(); i++)
             if (got[i] != (int64_t)((r->tail + i) % size)) o.fail("ring_for_each order");
     }
+    else if (op == "eachv")
+    { // the macro with a body that reads the slot: exactly the stored bytes, oldest first, once
+        bytes got;
+        size_t guard = 0;
+        ring_for_each(n, r)
+        {
+            if (n >= c.blen() || ++guard > size) { o.fail("ring_for_each leaves the ring"); break; }
+            got.push_back(c.p()[n]);
+        }
+        ret = hex(got);
+        if (got.size() != c.q.size()) o.fail("ring_for_each visits " + S(got.size()) + " elements, " + S(c.q.size()) + " stored");
+        else if (!std::equal(got.begin(), got.end(), c.q.begin())) o.fail("ring_for_each does not visit the stored bytes oldest first");
+        if (got.size() > 1) o.tag("foreach");
+    }
     else if (op == "dump")
         ret = hex(c.p(), c.blen());
     else
@@ -336,6 +352,13 @@ template <class T> struct TR
         if (x.r.head < x.r.tail) o.tag("wrapped");
         if (size & (size - 1)) o.tag("nonpow2");
         if (x.r.head == 0) o.tag("head0");
+        // stored elements = reference queue, in order
+        if (x.buffer.size() >= size && x.r.tail < size && x.avail() == q.size())
+        {
+            uint64_t i = x.r.tail;
+            for (size_t k = 0; k < q.size(); k++, i = (i + 1) % size)
+                if (x.buffer[i] != q[k]) { o.fail("stored element " + S(k) + " differs from reference"); break; }
+        }
     }
     void run(const std::vector<std::string> &w, out &o)
     {
@@ -429,6 +452,29 @@ template <class T> struct TR
             x.set_last_index(i);
             if ((int64_t)x.r.head != emod((int64_t)i + 1, size)) o.fail("set_last_index: head " + S(x.r.head));
             resync();
+        }
+        else if (op == "copy")
+        { // implicit copy constructor; the original is destroyed, the copy carries on
+            std::unique_ptr<igris::ring<T>> c(new igris::ring<T>(x));
+            if (c->buffer.data() == x.buffer.data()) o.fail("copy shares the storage");
+            t = std::move(c);
+            o.tag("copy");
+        }
+        else if (op == "assign")
+        { // implicit copy assignment into a ring of another size
+            std::unique_ptr<igris::ring<T>> c(new igris::ring<T>(3));
+            c->push((T)9);
+            *c = x;
+            if (c->buffer.data() == x.buffer.data()) o.fail("assignment shares the storage");
+            t = std::move(c);
+            o.tag("copy");
+        }
+        else if (op == "move")
+        { // implicit move constructor; what is left in the moved-from object is printed
+            std::unique_ptr<igris::ring<T>> c(new igris::ring<T>(std::move(x)));
+            ret = S(x.buffer.size()) + " " + S(x.r.size);
+            t = std::move(c);
+            o.tag("move");
         }
         else if (op == "write" || op == "read")
         {
@@ -532,6 +578,8 @@ static void run_rc(const std::vector<std::string> &w, out &o)
     {
         ring_counter_increment(&rcs, (int)a);
         if (before + a >= 0 && rcs.counter != emod(before + a, size)) o.fail("increment: counter " + S(rcs.counter));
+        if (before + a < 0) o.tag("inc-neg");
+        if (before + a >= 2147483000) o.tag("int-edge");
     }
     else if (op == "set")
     {
@@ -542,8 +590,11 @@ static void run_rc(const std::vector<std::string> &w, out &o)
     {
         int v = ring_counter_prev(&rcs, (int)a);
         ret = S(v);
-        if (a >= 0 && v != emod(before - a, size)) o.fail("prev(" + S(a) + ") = " + S(v));
+        // contract of ring_counter_prev: counter - i < size (every i >= 0 for a counter in range, and
+        // the negative i > counter - size); beyond it the result is >= size and only compared with the model
+        if (before - a < size && v != emod(before - a, size)) o.fail("prev(" + S(a) + ") = " + S(v));
         if (a > before) o.tag("prev-wrap");
+        if (a < 0) o.tag(before - a < size ? "prev-neg" : "prev-beyond");
     }
     else if (op == "last")
     {
@@ -575,6 +626,7 @@ struct Ledger
     std::set<const void *> live;
     std::set<void *> blocks;
     long allocs = 0;
+    long over_live = 0, dead_dtor = 0, dead_read = 0;
     std::vector<std::string> errs;
     void err(const std::string &e) { if (errs.size() < 4) errs.push_back(e); }
 };
@@ -584,20 +636,21 @@ struct Tracked
     int v;
     void born()
     {
-        if (!LG.live.insert(this).second) LG.err("object constructed over a live object (the old one is never destroyed)");
+        if (!LG.live.insert(this).second) { LG.over_live++; LG.err("object constructed over a live object (the old one is never destroyed)"); }
     }
     Tracked() : v(0) { born(); }
     Tracked(int x) : v(x) { born(); }
-    Tracked(const Tracked &o) : v(o.v) { born(); }
+    Tracked(const Tracked &o) : v(o.v) { if (!LG.live.count(&o)) LG.dead_read++; born(); }
     Tracked &operator=(const Tracked &o)
     {
         if (!LG.live.count(this)) LG.err("assignment to an object that is not alive");
+        if (!LG.live.count(&o)) LG.dead_read++;
         v = o.v;
         return *this;
     }
     ~Tracked()
     {
-        if (!LG.live.erase(this)) LG.err("destructor run on an object that is not alive (destroyed twice or never constructed)");
+        if (!LG.live.erase(this)) { LG.dead_dtor++; LG.err("destructor run on an object that is not alive (destroyed twice or never constructed)"); }
     }
 };
 template <class T> struct CountingAlloc
@@ -636,6 +689,16 @@ static void run_lifeprobe(const std::vector<std::string> &w, out &o)
     else if (k == "copy") { TArr x(a); TArr y(x); }
     else if (k == "assign") { TArr x(a), y(b); x = y; }
     else if (k == "selfassign") { TArr x(a); TArr &y = x; x = y; }
+    else if (k == "arrmisc")
+    { // initializer-list constructor, fill, begin/end, clear
+        TArr x{Tracked(1), Tracked(2), Tracked(3)};
+        if (x.size() != 3 || x[0].v != 1 || x[2].v != 3) LG.err("initializer_list constructor: wrong content");
+        x.fill(Tracked((int)a));
+        for (auto &e : x) if (e.v != (int)a) LG.err("fill: element not set");
+        if (x.end() - x.begin() != 3) LG.err("begin/end do not span size()");
+        x.clear();
+        if (x.size() != 0 || x.data() != nullptr) LG.err("clear: array not empty");
+    }
     else if (k == "ringctor") { TRng r((int)a); TRng e; e.resize(b); }
     else if (k == "push") { TRng r((int)a); for (long i = 0; i < b; i++) r.push(Tracked((int)i)); }
     else if (k == "pushpop") { TRng r((int)a); for (long i = 0; i < b; i++) { r.push(Tracked((int)i)); r.pop(); } }
@@ -650,12 +713,166 @@ static void run_lifeprobe(const std::vector<std::string> &w, out &o)
     o.result = "-";
 }
 
+
+
+// `lifecount <n> <script>`: igris::ring<Tracked>(n) runs the script (u push, o pop,
+// c clear, z resize(n), y copy-construct + carry on with the copy, m move-construct
+// + carry on with the new object) and is destroyed.  Result = the ledger's counts
+// "constructed-over-live  destructor-on-dead  read-of-dead" (compared with the
+// slot-lifetime model of the Lean side); the oracle judges what C03 states: the
+// values come out FIFO for this non-trivial T too.
+static void run_lifecount(const std::vector<std::string> &w, out &o)
+{
+    LG = Ledger();
+    size_t n = strtoul(w[1].c_str(), 0, 10);
+    const std::string sc = w[2] == "-" ? "" : w[2];
+    std::deque<int> q;
+    int k = 0;
+    {
+        std::unique_ptr<TRng> r(new TRng((int)n));
+        for (char ch : sc)
+        {
+            if (ch == 'u')
+            {
+                if (q.size() == n) { o.result = "bad-op"; return; }
+                r->push(Tracked(k)); q.push_back(k); k++;
+            }
+            else if (ch == 'o')
+            {
+                if (q.empty()) { o.result = "bad-op"; return; }
+                if (r->tail().v != q.front()) o.fail("tail() is " + S(r->tail().v) + ", the oldest pushed is " + S(q.front()));
+                r->pop(); q.pop_front();
+            }
+            else if (ch == 'c') { r->clear(); q.clear(); }
+            else if (ch == 'z') { r->resize(n); q.clear(); }
+            else if (ch == 'y') { std::unique_ptr<TRng> c(new TRng(*r)); r = std::move(c); }
+            else if (ch == 'm') { std::unique_ptr<TRng> c(new TRng(std::move(*r))); r = std::move(c); }
+            else { o.result = "bad-op"; return; }
+            if (r->avail() != q.size()) o.fail("avail " + S(r->avail()) + " != reference " + S(q.size()));
+            if (!q.empty() && r->last().v != q.back()) o.fail("last() is not the newest");
+        }
+        // drain: everything stored comes out in order
+        while (!q.empty())
+        {
+            if (r->empty()) { o.fail("ring empty with " + S(q.size()) + " elements outstanding"); break; }
+            if (r->tail().v != q.front()) { o.fail("drain: tail() is not the oldest"); break; }
+            q.pop_front();
+            r->move_tail_one(); // releases the slot without touching the object
+        }
+    }
+    if (LG.allocs != 0) o.fail(S(LG.allocs) + " allocations never released");
+    o.result = S(LG.over_live) + " " + S(LG.dead_dtor) + " " + S(LG.dead_read);
+    if (LG.over_live) o.tag("over-live");
+    if (LG.dead_dtor) o.tag("dead-dtor");
+    if (LG.dead_read) o.tag("dead-read");
+    for (void *p : LG.blocks) free(p);
+    LG = Ledger();
+    o.tag("lifetime");
+}
+
+// ================================================================== bytering
+// igris/datastruct/bytering.h: the pointer version of the byte ring
+// (`reset bring <size>`).  Result = "<ret> <head-start> <tail-start> <empty> <full>".
+struct BRing
+{
+    bytering_head r;
+    std::unique_ptr<exact_buf> buf;
+    std::deque<uint8_t> q;
+};
+static std::unique_ptr<BRing> br;
+static std::string bring_state(BRing &b)
+{
+    return S(b.r.head - b.r.start) + " " + S(b.r.tail - b.r.start) + " " + S(bytering_empty(&b.r) ? 1 : 0) + " " +
+           S(bytering_full(&b.r) ? 1 : 0);
+}
+static void bring_check(BRing &b, out &o)
+{
+    bytering_head *r = &b.r;
+    size_t size = b.buf->n;
+    if (r->start != b.buf->p || r->end != b.buf->p + size) o.fail("start/end moved");
+    if (!(r->head >= r->start && r->head < r->end)) o.fail("head outside [start,end)");
+    if (!(r->tail >= r->start && r->tail < r->end)) o.fail("tail outside [start,end)");
+    if ((bytering_empty(r) != 0) != b.q.empty()) o.fail("bytering_empty disagrees with reference (" + S(b.q.size()) + " stored)");
+    if ((bytering_full(r) != 0) != (b.q.size() == size - 1)) o.fail("bytering_full disagrees with reference (" + S(b.q.size()) + " stored of " + S(size - 1) + ")");
+    if (b.q.empty()) o.tag("empty");
+    if (b.q.size() == size - 1) o.tag("full");
+    if (size & (size - 1)) o.tag("nonpow2");
+    if (r->tail < r->head) o.tag("wrapped");
+}
+static void run_bring(const std::vector<std::string> &w, out &o)
+{
+    BRing &b = *br;
+    bytering_head *r = &b.r;
+    const std::string &op = w[0];
+    size_t size = b.buf->n;
+    std::string ret = "-";
+    if (op == "push" || op == "pushn")
+    {
+        uint8_t c = unhex(w[1])[0];
+        bytering_head before = *r;
+        bytes snap = b.buf->vec();
+        bool full = b.q.size() == size - 1;
+        if (op == "pushn")
+        { // unchecked variant: the caller has tested bytering_full itself
+            if (full) { o.result = "bad-op"; return; }
+            bytering_push_nocheck(r, c);
+            b.q.push_back(c);
+        }
+        else
+        {
+            int rc = bytering_push(r, c);
+            ret = S(rc);
+            if (full)
+            {
+                o.tag("reject-full");
+                if (rc != -1) o.fail("push on a full ring returned " + S(rc));
+                if (before.head != r->head || before.tail != r->tail || snap != b.buf->vec())
+                    o.fail("push on a full ring changed the state");
+            }
+            else
+            {
+                if (rc != 0) o.fail("push with " + S(b.q.size()) + " of " + S(size - 1) + " stored returned " + S(rc));
+                b.q.push_back(c);
+            }
+        }
+        if (c == 0xff) o.tag("ff"); else if (c >= 0x80) o.tag("hi-byte");
+    }
+    else if (op == "pop" || op == "popn")
+    {
+        bytering_head before = *r;
+        bytes snap = b.buf->vec();
+        bool empty = b.q.empty();
+        if (op == "popn" && empty) { o.result = "bad-op"; return; }
+        int rc = op == "pop" ? bytering_pop(r) : bytering_pop_nocheck(r);
+        ret = S(rc);
+        if (snap != b.buf->vec()) o.fail("pop wrote to the buffer");
+        if (empty)
+        {
+            o.tag("reject-empty");
+            if (rc != -1) o.fail("pop on an empty ring returned " + S(rc));
+            if (before.head != r->head || before.tail != r->tail) o.fail("pop on an empty ring changed the state");
+        }
+        else
+        {
+            uint8_t exp = b.q.front();
+            b.q.pop_front();
+            if (rc != (int)exp) o.fail("pop returned " + S(rc) + " for stored byte " + S(exp));
+            if (exp == 0xff) o.tag("ff"); else if (exp >= 0x80) o.tag("hi-byte");
+        }
+    }
+    else if (op == "dump") ret = hex(b.buf->p, size);
+    else { o.result = "bad-op"; return; }
+    bring_check(b, o);
+    o.result = ret + " " + bring_state(b);
+}
+
 // ------------------------------------------------------------------------ run
 static int kind = 0; // 1 ring, 2 typed int, 3 typed char, 4 cyc, 5 rc
 static void run_op(const std::vector<std::string> &w, const std::string &, out &o)
 {
     if (w.empty()) { o.result = "bad-op"; return; }
     if (w[0] == "lifeprobe" && w.size() >= 2) { run_lifeprobe(w, o); return; }
+    if (w[0] == "lifecount" && w.size() == 3) { run_lifecount(w, o); return; }
     if (w[0] == "reset")
     {
         if (w.size() == 4 && w[1] == "ring")
@@ -666,6 +883,10 @@ static void run_op(const std::vector<std::string> &w, const std::string &, out &
             cr->buf.reset(new exact_buf(blen));
             for (size_t i = 0; i < blen; i++) cr->buf->p[i] = (uint8_t)(i * 7 + 3);
             ring_init(&cr->r, size);
+            {
+                ring_head m = RING_HEAD_INIT(size); // the static initialiser must describe the same ring
+                if (m.head != cr->r.head || m.tail != cr->r.tail || m.size != cr->r.size) o.fail("RING_HEAD_INIT differs from ring_init");
+            }
             kind = 1;
             cring_check(*cr, o, blen >= size);
             o.result = "- " + cring_state(&cr->r);
@@ -689,6 +910,17 @@ static void run_op(const std::vector<std::string> &w, const std::string &, out &
             cy.log.clear(); kind = 4;
             o.result = "- " + S(cy.c->counter.counter) + " " + S(cy.c->size());
         }
+        else if (w.size() == 3 && w[1] == "bring")
+        {
+            br.reset(new BRing);
+            size_t size = strtoull(w[2].c_str(), 0, 10);
+            br->buf.reset(new exact_buf(size));
+            for (size_t i = 0; i < size; i++) br->buf->p[i] = (uint8_t)(i * 7 + 3);
+            bytering_init(&br->r, br->buf->p, (unsigned)size);
+            kind = 6;
+            bring_check(*br, o);
+            o.result = "- " + bring_state(*br);
+        }
         else if (w.size() == 3 && w[1] == "rc")
         {
             ring_counter_init(&rcs, (int)strtol(w[2].c_str(), 0, 10));
@@ -705,6 +937,7 @@ static void run_op(const std::vector<std::string> &w, const std::string &, out &
     case 3: tc.run(w, o); break;
     case 4: run_cyc(w, o); break;
     case 5: run_rc(w, o); break;
+    case 6: run_bring(w, o); break;
     default: o.result = "bad-op";
     }
 }
@@ -1058,6 +1291,232 @@ static void gen_cyc(rng &r, bool th)
     }
 }
 
+
+// bytering.h: every (head, tail) state of small rings x every operation, all
+// byte values, random histories
+static void gen_bring(rng &r, bool th)
+{
+    for (unsigned size = 1; size <= (th ? 12u : 9u); size++)
+        for (unsigned rot = 0; rot < size; rot++)
+            for (unsigned fill = 0; fill + 1 <= size; fill++)
+                for (const char *op : {"push ff", "push 00", "pop", "pushn 80", "popn", "dump"})
+                {
+                    if (!strcmp(op, "pushn 80") && fill == size - 1) continue;
+                    if (!strcmp(op, "popn") && fill == 0) continue;
+                    if (size == 1 && rot) continue;
+                    P("reset bring " + S(size));
+                    for (unsigned i = 0; i < rot && size > 1; i++) { P("push " + hexn(0x10 + i, 2)); P("pop"); }
+                    for (unsigned i = 0; i < fill; i++) P("push " + hexn(SPECIAL[(i + rot) % 7], 2));
+                    P(op);
+                    for (unsigned i = 0; i <= size; i++) P("pop"); // everything left comes out in order
+                    P("push 5a");
+                    P("pop");
+                }
+    for (unsigned size : {2u, 3u, 5u, 8u})
+    {
+        P("reset bring " + S(size));
+        for (unsigned b = 0; b < 256; b++) { P("push " + hexn(b, 2)); P("pop"); }
+        for (unsigned b = 0; b < 256; b += size - 1)
+        {
+            for (unsigned i = 0; i < size - 1; i++) P("push " + hexn(255 - (b + i) % 256, 2));
+            P("push 77"); // full: rejected
+            for (unsigned i = 0; i < size; i++) P("pop");
+        }
+    }
+    for (int rep = 0; rep < (th ? 6 : 1); rep++)
+        for (unsigned size : {1u, 2u, 3u, 4u, 5u, 7u, 8u, 9u, 16u, 17u, 31u, 64u, 100u, 255u, 256u, 257u})
+        {
+            P("reset bring " + S(size));
+            unsigned cnt = 0, cap = size - 1;
+            int phase = 0, left = 0;
+            for (int k = 0; k < (th ? 500 : 200); k++)
+            {
+                if (left-- <= 0) { phase = (int)r.below(3); left = (int)r.range(5, 2 * size + 5); }
+                unsigned x = (unsigned)r.below(100);
+                bool prod = phase == 1 ? x < 75 : phase == 2 ? x < 25 : x < 50;
+                if (prod)
+                {
+                    if (cnt < cap && r.chance(20)) { P("pushn " + rhex(r, 1)); cnt++; }
+                    else { P("push " + rhex(r, 1)); if (cnt < cap) cnt++; }
+                }
+                else
+                {
+                    if (cnt && r.chance(20)) { P("popn"); cnt--; }
+                    else { P("pop"); if (cnt) cnt--; }
+                }
+                if (size <= 16 && r.chance(3)) P("dump");
+            }
+            for (unsigned i = 0; i <= cnt; i++) P("pop");
+        }
+}
+
+
+// ---- extension: ring_for_each with a body, size 1, copy/move of the typed ring,
+// the slot-lifetime counters, ring_counter at the edges of int
+static void gen_ext(rng &r, bool th)
+{
+    // (a) ring_for_each reading the slots: every (size, head, tail) state
+    unsigned salt = 0;
+    for (unsigned size = 2; size <= (th ? 12u : 9u); size++)
+        for (unsigned h = 0; h < size; h++)
+            for (unsigned t = 0; t < size; t++)
+            {
+                reach(size, h, t, salt++);
+                P("eachv");
+                P("each");
+                P("read " + S(size));
+                P("eachv");
+            }
+    // (b) a ring of size 1 (capacity 0: always empty and full)
+    P("reset ring 1 1");
+    for (const char *op : {"putc ff", "getc", "write 0102", "read 3", "each", "eachv", "mh 0", "mt 0", "mh 1", "mt 1", "mh1", "mt1",
+                           "mh 5", "clean", "fix 0", "fix -1", "fix 7", "putc 00", "getc", "dump"})
+        P(op);
+    // (c) random histories with for_each after every few operations; bulk writes that exactly fill
+    for (int rep = 0; rep < (th ? 6 : 1); rep++)
+        for (unsigned size : {2u, 3u, 4u, 5u, 7u, 8u, 9u, 16u, 17u, 33u, 64u, 100u})
+        {
+            P("reset ring " + S(size) + " " + S(size));
+            unsigned cnt = 0, cap = size - 1;
+            for (int k = 0; k < (th ? 300 : 120); k++)
+            {
+                unsigned y = (unsigned)r.below(100);
+                unsigned room = cap - cnt;
+                if (y < 20) { P("putc " + rhex(r, 1)); if (cnt < cap) cnt++; }
+                else if (y < 30) { P("write " + rhex(r, room)); cnt = cap; }                  // exactly fills
+                else if (y < 40) { unsigned n = (unsigned)r.range(0, room + 2); P("write " + rhex(r, n)); cnt += std::min(n, room); }
+                else if (y < 55) { P("getc"); if (cnt) cnt--; }
+                else if (y < 65) { P("read " + S(cnt)); cnt = 0; }                            // exactly drains
+                else if (y < 75) { unsigned n = (unsigned)r.range(0, cnt + 2); P("read " + S(n)); cnt -= std::min(n, cnt); }
+                else if (y < 80 && room) { unsigned n = (unsigned)r.range(1, room); P("prod " + rhex(r, n)); cnt += n; }
+                else if (y < 85 && cnt) { unsigned n = (unsigned)r.range(1, cnt); P("cons " + S(n)); cnt -= n; }
+                else P("eachv");
+            }
+            P("eachv");
+            P("read " + S(size));
+        }
+    // (d) igris::ring<int>: copy construction / assignment / move at every (head, fill)
+    for (int n = 1; n <= (th ? 8 : 5); n++)
+    {
+        int size = n + 1;
+        for (int h = 0; h < size; h++)
+            for (int fill = 0; fill <= n; fill++)
+                for (const char *op : {"copy", "assign", "move"})
+                {
+                    int t = ((h - fill) % size + size) % size;
+                    P("reset typed " + S(n));
+                    for (int i = 0; i < t; i++) { P("push " + S(-i - 1)); P("pop"); }
+                    for (int i = 0; i < fill; i++) P("push " + S(100 + i));
+                    P(op);
+                    if (fill) { P("last"); P("tail"); P("getlast 0 " + S(fill) + " 0"); }
+                    if (fill < n) P("push 777");
+                    for (int i = 0; i < fill + (fill < n ? 1 : 0); i++) { P("tail"); P("pop"); }
+                    // resize drops the content: the ring is empty with the new capacity
+                    P("push 5");
+                    P("resize " + S(n + 2));
+                    P("push 6");
+                    P("tail");
+                    P("last");
+                }
+    }
+    for (int rep = 0; rep < (th ? 6 : 1); rep++)
+        for (int n : {1, 2, 3, 5, 8, 16, 17, 100})
+        {
+            P("reset typed " + S(n));
+            int cnt = 0, v = 1;
+            for (int k = 0; k < (th ? 300 : 120); k++)
+            {
+                unsigned y = (unsigned)r.below(100);
+                if (y < 40) { if (cnt < n) { P("push " + S(v++)); cnt++; } }
+                else if (y < 65) { if (cnt) { P("pop"); cnt--; } }
+                else if (y < 72) P("copy");
+                else if (y < 79) P("assign");
+                else if (y < 86) P("move");
+                else if (y < 92) { if (cnt) P("last"); }
+                else if (y < 98) { if (cnt) P("tail"); }
+                else { P("resize " + S(n)); cnt = 0; }
+            }
+            P("clear");
+        }
+    // (e) slot lifetime of ring<Tracked>: every contract-respecting push/pop script up to a
+    // length on rings of 1..3 elements, then random scripts with clear/resize/copy/move
+    for (int n = 1; n <= 3; n++)
+    {
+        int maxlen = th ? 9 : 7;
+        std::vector<std::pair<std::string, int>> cur = {{"", 0}};
+        P("lifecount " + S(n) + " -");
+        for (int len = 1; len <= maxlen; len++)
+        {
+            std::vector<std::pair<std::string, int>> nxt;
+            for (auto &p : cur)
+            {
+                if (p.second < n) nxt.push_back({p.first + "u", p.second + 1});
+                if (p.second > 0) nxt.push_back({p.first + "o", p.second - 1});
+            }
+            for (auto &p : nxt) P("lifecount " + S(n) + " " + p.first);
+            cur = nxt;
+        }
+    }
+    for (int n : {1, 2, 3, 4, 5, 8, 16})
+        for (int rep = 0; rep < (th ? 40 : 8); rep++)
+        {
+            std::string sc;
+            int cnt = 0, len = (int)r.range(1, 4 * n + 10);
+            for (int k = 0; k < len; k++)
+            {
+                unsigned y = (unsigned)r.below(100);
+                if (y < 45) { if (cnt < n) { sc += 'u'; cnt++; } }
+                else if (y < 80) { if (cnt) { sc += 'o'; cnt--; } }
+                else if (y < 85) { sc += 'c'; cnt = 0; }
+                else if (y < 89) { sc += 'z'; cnt = 0; }
+                else if (y < 95) sc += 'y';
+                else sc += 'm';
+            }
+            P("lifecount " + S(n) + " " + (sc.empty() ? "-" : sc));
+        }
+    // (f) ring_counter: negative i, results below 0, the edges of int (all inside the
+    // precondition "counter +- argument fits an int")
+    for (int n : {1, 2, 3, 7, 8})
+    {
+        P("reset rc " + S(n));
+        for (int c = 0; c < n; c++)
+        {
+            P("set " + S(c));
+            for (int i = -2 * n - 1; i < 0; i++) { P("prev " + S(i)); P("last " + S(i)); }
+        }
+        P("set 0");
+        P("inc -1");
+        P("get");
+        P("prev 0");
+        P("last 0");
+        P("inc 1");
+        P("inc -" + S(n + 2));
+        P("last 1");
+        P("set 0");
+    }
+    for (long long n : {2147483647ll, 2147483646ll, 1073741824ll, 65536ll})
+    {
+        P("reset rc " + S(n));
+        P("set " + S(n - 1));
+        P("prev 0");
+        P("prev " + S(n - 1));
+        P("last -1");
+        P("inc " + S(2147483647ll - (n - 1))); // counter + arg == INT_MAX exactly
+        P("get");
+        P("set 2147483647");
+        P("get");
+        P("set 5");
+        P("prev 2147483647");
+        P("last 2147483647");
+        P("last -2147483642"); // counter - no == INT_MAX
+        P("fixpos -2147483648");
+        P("fixpos 2147483647");
+        P("inc -2147483648");
+        P("get");
+        P("set 0");
+    }
+}
+
 // element lifetime in unbounded_array / ring / cyclic_buffer (oracle-only)
 static void gen_lifetime()
 {
@@ -1065,6 +1524,7 @@ static void gen_lifetime()
     for (int a : {0, 1, 3, 8})
     {
         P("lifeprobe array " + S(a));
+        P("lifeprobe arrmisc " + S(a));
         P("lifeprobe copy " + S(a));
         P("lifeprobe selfassign " + S(a));
         for (int b : {0, 1, 5})
@@ -1097,6 +1557,8 @@ static void gen(rng &r, const std::string &tier)
             gen_random_ring(r, size, th ? 600 : 250);
     gen_typed(r, th);
     gen_cyc(r, th);
+    gen_bring(r, th);
+    gen_ext(r, th);
 }
 
 int main(int argc, char **argv) { return main_(argc, argv, gen, run_op); }
